@@ -60,4 +60,11 @@ theorem GenC01_codec_src_desc : KmipGen.codecSrc_desc = ExpectCodec.codecSrc_des
 /-- dynamic dispatch (BuildFieldValue methods) -/
 theorem GenC01_codec_src_disp : KmipGen.codecSrc_disp = ExpectCodec.codecSrc_disp := by decide
 
+/-- which sequences must be non-empty: only the three the message model itself requires (a Request / Response has at least one
+    batch item, a Query names at least one function).  Encode writes nothing for an empty sequence whatever its annotation, so a
+    sequence that becomes `required` turns "nothing to list" into a message Decode rejects. -/
+theorem GenC01_required_sequences :
+    (KmipGen.allSchemas.flatMap fun sd => (sd.fields.filter fun f => f.required && f.slice).map fun f => (sd.name, f.name)) =
+      [("QueryRequest", "QueryFunctions"), ("Request", "BatchItems"), ("Response", "BatchItems")] := by decide
+
 end Kmip
